@@ -271,11 +271,17 @@ func (f *Formatter) formatIfStatement(stmt *ast.IfStatement) string {
 	for _, a := range stmt.Another {
 		// If leading comments exists or AlwaysNextLineElseIf configuration is enabled,
 		// The keyword should be printed on the next line.
-		if len(a.Leading) > 0 || f.conf.AlwaysNextLineElseIf {
-			buf.WriteString("\n")
+		switch {
+		case len(a.Leading) > 0 || f.conf.AlwaysNextLineElseIf:
+			if !bytes.HasSuffix(buf.Bytes(), []byte("\n")) {
+				buf.WriteString("\n")
+			}
 			buf.WriteString(f.formatComment(a.Leading, "\n", a.Nest))
 			buf.WriteString(f.indent(a.Nest))
-		} else {
+		case bytes.HasSuffix(buf.Bytes(), []byte("\n")):
+			// The previous block ends with a line comment, the keyword starts a new line
+			buf.WriteString(f.indent(a.Nest))
+		default:
 			// Otherwise, write with whitespace character
 			buf.WriteString(" ")
 		}
@@ -321,11 +327,16 @@ func (f *Formatter) formatIfStatement(stmt *ast.IfStatement) string {
 
 	// else
 	if stmt.Alternative != nil {
-		if len(stmt.Alternative.Leading) > 0 || f.conf.AlwaysNextLineElseIf {
-			buf.WriteString("\n")
+		switch {
+		case len(stmt.Alternative.Leading) > 0 || f.conf.AlwaysNextLineElseIf:
+			if !bytes.HasSuffix(buf.Bytes(), []byte("\n")) {
+				buf.WriteString("\n")
+			}
 			buf.WriteString(f.formatComment(stmt.Alternative.Leading, "\n", stmt.Alternative.Nest))
 			buf.WriteString(f.indent(stmt.Alternative.Nest))
-		} else {
+		case bytes.HasSuffix(buf.Bytes(), []byte("\n")):
+			buf.WriteString(f.indent(stmt.Alternative.Nest))
+		default:
 			buf.WriteString(" ")
 		}
 		buf.WriteString("else ")
